@@ -1194,7 +1194,7 @@ def do_delaunay(S, rng, n, corpus=False):
         fam, pts = make_site_case(rng, ctx.quick, fams)
         tol, regime = pick_tolerance(rng, pts)
         k = rng.choice([0, 0, 0, 0, 1, -1, 3, -7, 20, -20, 100, -100])
-        gt = rng.choice(['M', 'M', 'L', 'C', 'X'])
+        gt = rng.choice(['M', 'M', 'L', 'C', 'X', 'Z', 'Y'])
         if rng.random() < 0.35:      # several requests on ONE DelaunayTriangulationBuilder (C++ API)
             gt += ':' + rng.choice(DELAUNAY_SEQS)
         cases.append((fam, pts, tol, regime, k, gt))
@@ -1605,7 +1605,7 @@ def do_voronoi(S, rng, n):
             g = gen_clip_env(rng, pts)
             if g is not None:
                 pts, env, shape, mult = g
-        gt = rng.choice(['M', 'M', 'L', 'C', 'X'])
+        gt = rng.choice(['M', 'M', 'L', 'C', 'X', 'Z', 'Y'])
         if rng.random() < 0.3:       # several requests on ONE VoronoiDiagramBuilder (C++ API)
             gt += ':' + rng.choice(VORONOI_SEQS)
         cases.append((fam, pts, 0, k, flags, env, gt)); info[len(cases) - 1] = (shape, mult)
